@@ -8,6 +8,7 @@ import (
 	ctrlertypes "github.com/rigochain/rigo-go/ctrlers/types"
 	"github.com/rigochain/rigo-go/genesis"
 	"github.com/rigochain/rigo-go/ledger"
+	"github.com/rigochain/rigo-go/libs/vhook"
 	"github.com/rigochain/rigo-go/types"
 	abytes "github.com/rigochain/rigo-go/types/bytes"
 	"github.com/rigochain/rigo-go/types/crypto"
@@ -453,14 +454,17 @@ func (ctrler *GovCtrler) Commit() ([]byte, int64, xerrors.XError) {
 	if xerr != nil {
 		return nil, -1, xerr
 	}
+	vhook.At("commit/gov/params")
 	h1, v1, xerr := ctrler.proposalLedger.Commit()
 	if xerr != nil {
 		return nil, -1, xerr
 	}
+	vhook.At("commit/gov/proposals")
 	h2, v2, xerr := ctrler.frozenLedger.Commit()
 	if xerr != nil {
 		return nil, -1, xerr
 	}
+	vhook.At("commit/gov/frozen")
 
 	if v0 != v1 || v1 != v2 {
 		return nil, -1, xerrors.ErrCommit.Wrapf("error: GovCtrler.Commit() has wrong version number - v0:%v, v1:%v, v2:%v", v0, v1, v2)
